@@ -84,6 +84,8 @@ class Sim:
         self.switches = 0
         self.preemptions = 0
         self.line_events = 0
+        self.free_statements = 0
+        self.free_statement_cap = cfg.get("statement_cap", 3_000_000)
         self.seq = 0  # global logical clock for history records
         self.log = []
         self.keep_log = cfg.get("keep_log", True)
